@@ -78,7 +78,7 @@ pub fn run(args: &Args) -> i32 {
         args,
         "exploration",
         "FSST: seeded byte-string arrays of 14 kinds (text, random, all-256, repeats, tiny, huge, threshold boundary, 0xFF-heavy, 511-chunk lengths, mixed, below-threshold, empty, skewed, prefixes) x i32/i64 offsets x optional non-zero first offset; non-trivial iff the encoder really ran (encoder switch on), distinct by (kind, offset width, #symbols, ratio bucket, log2 sizes). Bit-packing: ALL (u8/u16/u32/u64, width 0..=bits) pairs x 9 value patterns x reps on 1024-value chunks masked to the width with garbage-prefilled guarded outputs; non-trivial iff width>0 and some value non-zero, distinct by (type,width,pattern).",
-        (45, 600),
+        (40, 600),
     )
     .with_min_nontrivial(400);
     report.assume("FSST callers size output buffers like lance-encoding does: compress out = 2x input bytes and 2x offsets, decompress out = 8x compressed bytes (fsst's own documented minimum of 1x / 3x is smaller; see NOTES.md)");
@@ -89,8 +89,8 @@ pub fn run(args: &Args) -> i32 {
     }
 
     // ---------------- bit-packing: exhaustive over (type, width) ----------------
-    let reps_random: u64 = args.tier.pick(24, 600);
-    let reps_other: u64 = args.tier.pick(3, 40);
+    let reps_random: u64 = args.tier.pick(150, 3000);
+    let reps_other: u64 = args.tier.pick(6, 60);
     let mut pairs = vec![];
     for ty in 0..4 {
         for width in 0..=TY_BITS[ty] {
@@ -141,7 +141,7 @@ pub fn run(args: &Args) -> i32 {
     );
 
     // ---------------- FSST ----------------
-    let max_cases: u64 = args.tier.pick(700, 60_000);
+    let max_cases: u64 = args.tier.pick(14_000, 600_000);
     let scale = args.tier.pick(30, 100);
     let next = AtomicU64::new(0);
     std::thread::scope(|s| {
